@@ -158,6 +158,9 @@ def correspond(res):
         model = StepModel(nu, a=0.25, sigma=0.5)
         o = grid.origin_coordinate.value
         ctx = dict(kind="step", measure=step_spec(nu), axis=[float(x) for x in grid.axes[0]], o=o, h=float(grid.h))
+        if nu.moment_q(axis0[0], (axis0[o - 1] + axis0[o]) / 2, 0) + nu.moment_q((axis0[o] + axis0[o + 1]) / 2, axis0[-1], 0) == 0:
+            res.bump("support", "zero-intensity chain skipped (no state can be reached; the sampler constructor divides 0/0)")
+            continue
         try:
             chain = build_chain(model, grid)
             q = create_q_vector(chain.model.levy_triplet.nu, grid)
@@ -230,19 +233,22 @@ def _real_stream(res, rng, viol, scale):
             nu0 = model.levy_triplet.nu
             h = rng.choice([0.02, 0.05, 0.08])
             grids = []
-            try:
-                grids.append(("uniform", CTMCUniformGrid(h=h, model=model)))
-                g = CTMCUniformGrid.create_from_fixed_nb_of_points(h=h, nb_of_points=rng.randrange(4, 40))
-                grids.append(("fixed", g))
-                grids.append(("geometric", CTMCGridGeometric(h=h, model=model, nb_of_points_on_each_side=rng.randrange(2, 12))))
-                grids.append(("bounds", CTMCGridGeometric.create_with_bounds(h=h, truncations=(-rng.uniform(0.3, 1.5), rng.uniform(0.3, 1.5)),
-                                                                           dimension=1, nb_of_points_on_each_side=rng.randrange(2, 10))))
-                l = grids[0][1].truncations[0][0]
-                grids.append(("credit", CTMCCredit(h=h, level_a=float(rng.uniform(0.8 * l, -2 * h)), model=model)))
-                if fam in ("HEM", "MERTON") and rep == 0:
-                    grids.append(("probstep", CTMCGridProbabilityStep(h=0.05, model=model, minimum_probability_step=0.1)))
-            except ValueError as e:
-                res.notes.append(f"real stream: a grid constructor raised ValueError for {fam}: {str(e)[:80]}")
+
+            def add(name, f):
+                try:
+                    grids.append((name, f()))
+                except ValueError as e:
+                    res.bump("real_grid_ValueError", f"{fam}/{name}")
+            add("uniform", lambda: CTMCUniformGrid(h=h, model=model))
+            add("fixed", lambda: CTMCUniformGrid.create_from_fixed_nb_of_points(h=h, nb_of_points=rng.randrange(4, 40)))
+            add("geometric", lambda: CTMCGridGeometric(h=h, model=model, nb_of_points_on_each_side=rng.randrange(2, 12)))
+            add("bounds", lambda: CTMCGridGeometric.create_with_bounds(h=h, truncations=(-rng.uniform(0.3, 1.5), rng.uniform(0.3, 1.5)),
+                                                                      dimension=1, nb_of_points_on_each_side=rng.randrange(2, 10)))
+            from rpylib.grid.spatial import compute_truncation
+            l = compute_truncation(model, h)[0]
+            add("credit", lambda: CTMCCredit(h=h, level_a=float(rng.uniform(0.8 * l, -2 * h)), model=model))
+            if fam in ("HEM", "MERTON") and rep == 0:
+                add("probstep", lambda: CTMCGridProbabilityStep(h=0.05, model=model, minimum_probability_step=0.1))
             for gname, grid in grids:
                 lv = rng.choice([0, 1]) if gname != "probstep" else 0
                 for _ in range(lv):
